@@ -7,7 +7,7 @@ ID = "C16"
 AREA = "hdr"
 COQ_TARGETS = ["theories/Props/C16.vo", "theories/Props/C16c.vo"]
 REQUIRES = ["From Coq Require Import List NArith Bool.", "From Coq.Strings Require Import Byte.",
-            "From MS Require Import Base.Bytes Base.Outcome Mp4.Header Mp4.HeaderSpec Mp4.Box Mp4.BoxProofsLazy Props.C16 Props.C16c.",
+            "From MS Require Import Base.Bytes Base.Outcome Mp4.Header Mp4.HeaderSpec Mp4.Box Mp4.BoxLazy Mp4.BoxOps Props.C16 Props.C16c.",
             "Import ListNotations.", "Open Scope N_scope."]
 COQCHK = ["MS.Props.C16", "MS.Props.C16c"]
 
@@ -51,6 +51,11 @@ THEOREMS = [
     ("C16_set_keeps_length", """
   forall (f g : N -> res N) (kids kids' : list node) (l : list unit),
   each_trak kids (shift_table f g) = Ok (kids', l) -> length (put_nodes kids') = length (put_nodes kids)"""),
+    ("C16_lazy_ops_roundtrip", """
+  forall (p : bytes) (kids : list node) (ops : list (nat * nat)),
+  parse_moov p = Ok kids ->
+  put_nodes (fst (run_ops ops 0 kids)) = p /\\
+  N.of_nat (length (put_nodes (fst (run_ops ops 0 kids)))) = nodes_encoded_len (fst (run_ops ops 0 kids))"""),
 ]
 
 TRUSTED = [
@@ -58,8 +63,9 @@ TRUSTED = [
     "axioms: none (Print Assumptions = Closed under the global context for all theorems)",
     "the hand-written model coq/theories/Mp4/Header.v of mp4san/src/parse/header.rs (hdr_read, hdr_put, encoded_len, box_data_size, "
     "with_u32_data_size, with_data_size), tied to the current source by the correspondence batch of every run",
-    "part (c): the hand-written tree model coq/theories/Mp4/Box.v of mp4san/src/parse/{mp4box,array,stco,co64,stbl,minf,mdia,trak,moov}.rs, tied to "
-    "the source by the mp4 area's correspondence batch (whole sanitizer runs), not by this module's batch",
+    "part (c): the hand-written tree model coq/theories/Mp4/Box.v (+ Mp4/BoxLazy.v encoded length, Mp4/BoxOps.v partial accessor chains) of "
+    "mp4san/src/parse/{mp4box,array,stco,co64,stbl,minf,mdia,trak,moov}.rs, tied to the source by the `lazy` batch of this module (public accessor "
+    "API in generated orders) and by the mp4 area's batches (whole sanitizer runs)",
     "extraction (ExtrOcamlBasic only), OCaml 4.13.1, ocaml/prelude.ml + ocaml/hdr.ml",
     "Rust harness harness/src/hdr.rs calling mp4san::parse::BoxHeader::{parse, put_buf, encoded_len, box_size, box_data_size, with_data_size, "
     "with_u32_data_size}; the Size/Ext variant is read off the derived Debug text; rustc/cargo",
@@ -76,16 +82,26 @@ RULE = ("hdrparse: every truncation length of headers built from size fields {0,
         "bytes are 000000ss + 4-letter type with ss in 0..=255 for two types, plus seeded random byte strings of length 0..48 biased to small "
         "size fields; hdrmk: payload sizes 0..40, u32::MAX-40..u32::MAX+16, u64::MAX-40..u64::MAX, powers of two +-1, seeded random, each for "
         "a FourCC type, a random FourCC, a uuid type and FourCC `uuid`. Non-trivial = parse succeeded with a size field of 0/1 or a uuid type, "
-        "or failed by truncation after the 8th byte; constructor payload within 48 of a form boundary or an error.")
+        "or failed by truncation after the 8th byte; constructor payload within 48 of a form boundary or an error. "
+        "lazy: a call i.k = iterate traks() to the i-th trak and apply the first k of mdia_mut/minf_mut/stbl_mut/co_mut; exhaustive: no call, each of the "
+        "15 calls (i in 0..2, k in 0..4) and each of the 225 ordered pairs on a two-trak moov with unknown siblings, 64-bit child header, stco + co64; "
+        "random: structure-aware moov payloads (1-4 traks, unknown/uuid siblings at every level, 32/64-bit/until-end child headers, 0-6 entries) x random "
+        "sequences of 0-6 calls (index may exceed the trak count); payloads MoovBox::parse refuses. Non-trivial = at least one call on >= 40 bytes.")
 EXHAUSTIVE = {"quick": False, "thorough": False}
 XCHECK_N = 60
-NOTES = ["part (c) (lazy box tree): theorems C16_lazy_roundtrip / C16_encoded_len_agrees / C16_accessors_are_forcings / C16_moov_roundtrip / "
-         "C16_set_keeps_length are about the tree model Mp4/Box.v, whose correspondence with Mp4Box::parse / traks / co_mut / put_buf is exercised "
-         "through the whole sanitizer by the mp4 area (./check C01, C04, C05: the returned moov payload is put_buf of the forced tree); there is no "
-         "separate forcing-order batch in this module",
-         "finding D9 (a FAILED lazy parse has already consumed part of the child's BytesMut, a later put_buf writes a shortened box) is outside the "
-         "model: force_cont / force_table return an error and no new state, and every caller in the sanitizer propagates the error; nothing is "
-         "claimed about the Rust value after an accessor returned Err"]
+NOTES = ["part (c) (lazy box tree): theorems C16_lazy_roundtrip / C16_encoded_len_agrees quantify over EVERY sequence of successful forcings "
+         "(relation `forces` of Mp4/BoxLazy.v); C16_accessors_are_forcings and C16_lazy_ops_roundtrip show that the sanitizer's accessor chain and the "
+         "call sequences of the `lazy` batch are such sequences. The `lazy` batch drives MoovBox::parse, traks(), mdia_mut, minf_mut, stbl_mut, "
+         "co_mut in generated orders (every single call and every ordered pair on a two-trak tree; random sequences of up to 6 calls on random "
+         "trees) and compares put_buf / encoded_len with the extracted model; the oracle compares put_buf with the input bytes directly",
+         "finding D9 (a FAILED lazy parse has already consumed part of the child's BytesMut and changed the payload length, so a later put_buf writes "
+         "a shortened box with recomputed sizes; witness `lazy 000000347472616b0000002c6d646961000000246d696e660000001c7374626c000000147374636f"
+         "000000000000000200000001 0.4`: co_mut fails with TruncatedBox, 44 bytes are then written for the 52 parsed) is outside the model: "
+         "force_cont / force_table return an error and no new state, and every caller in the sanitizer propagates the error at once, so the "
+         "sanitizer never serialises such a value. As worded (`regardless of which children were lazily parsed in between`) the property is "
+         "violated by these histories; the stream of failing accessor calls (`lazy-failing-calls`) is generated only when the finding is "
+         "recorded as `known: property=C16 id=D9 ...` in known_findings.txt (or with VERIF_C16_D9=1), and is then reported as KNOWN-FINDING; "
+         "for those cases model and implementation are compared on error kind and failing step only, and encoded_len = |put_buf| is still checked"]
 
 U32 = 2**32 - 1
 U64 = 2**64 - 1
@@ -226,7 +242,74 @@ def gen_hdrmk(run):
         yield "hdrmk %s %d" % (t, n), "random"
 
 
-GENERATORS = [gen_hdrparse, gen_hdrmk]
+# ---------------------------------------------------------------------- part (c): lazy box tree, forcing orders
+def _d9_recorded():
+    """the stream of FAILING accessor calls is run only when finding D9 is recorded for C16 in known_findings.txt
+    (after a failed lazy parse the Rust value serialises to fewer bytes: a violation of the property as worded)"""
+    import os
+    if os.environ.get("VERIF_C16_D9") == "1":      # force the stream (used to reproduce the finding before it is recorded)
+        return True
+    p = os.path.join(os.path.dirname(os.path.dirname(os.path.dirname(os.path.abspath(__file__)))), "known_findings.txt")
+    try:
+        return any(l.startswith("known:") and "property=C16" in l and "id=D9" in l for l in open(p))
+    except OSError:
+        return False
+
+
+def _rand_ops(rng, ntr, maxlen=6):
+    n = rng.randint(0, maxlen)
+    return ",".join("%d.%d" % (rng.randrange(0, ntr + 1), rng.randint(0, 4)) for _ in range(n)) or "-"
+
+
+def _lazy_valid_payloads(rng, n):
+    import mp4gen as G
+    udta = G.box(b"udta", b"hello")
+    uu = G.box(b"uuid", b"pay", uuid=bytes(range(16)))
+    out = [G.trak(G.stco([1, 2])), G.trak(G.co64([2**40])) + G.trak(G.stco([])),
+           udta + G.trak(G.stco([7]), extra_stbl=(udta, uu), extra_minf=(uu,), extra_mdia=(udta, udta), extra_trak=(uu, udta),
+                         forms=("64", "32", "64", "32")) + uu,
+           G.trak(G.stco([5])) + G.trak(G.co64([6]), forms=("32", "32", "32", "eof")),
+           G.trak(G.stco([5])) + G.trak(G.co64([6]), forms=("eof", "eof", "eof", "eof"))]
+    for _ in range(n):
+        out.append(G.rand_moov(rng, 50))
+    return out
+
+
+def gen_lazy(run):
+    import mp4gen as G
+    rng = run.rng
+    quick = run.tier == "quick"
+    # every single call and every ordered pair of calls on a two-trak tree with siblings (exhaustive small domain)
+    udta = G.box(b"udta", b"x")
+    two = udta + G.trak(G.stco([1, 2**31]), extra_minf=(udta,), extra_trak=(udta,)) + G.trak(G.co64([2**63]), forms=("32", "64", "32", "32")) + udta
+    calls = ["%d.%d" % (i, k) for i in range(3) for k in range(5)]
+    yield "lazy %s -" % two.hex(), "lazy-exhaustive"
+    for a in calls:
+        yield "lazy %s %s" % (two.hex(), a), "lazy-exhaustive"
+        for b in calls:
+            yield "lazy %s %s,%s" % (two.hex(), a, b), "lazy-exhaustive"
+    # structure-aware random trees x random call sequences (all calls succeed: the trees are valid)
+    pls = _lazy_valid_payloads(rng, 60 if quick else 3000)
+    for pl in pls:
+        ntr = pl.count(b"trak")
+        for _ in range(4 if quick else 6):
+            yield "lazy %s %s" % (pl.hex(), _rand_ops(rng, ntr)), "lazy-valid"
+    # trees that MoovBox::parse itself refuses (no successful parse: nothing to serialise)
+    for bad in (b"", udta, two[:-3], G.box(b"trak", b"")[:7], b"\0\0\0\7trak"):
+        yield "lazy %s -" % (bad.hex() or "-"), "lazy-parse-error"
+    if _d9_recorded():
+        # malformed subtrees: some accessor call fails (finding D9 shows after the failure)
+        import mp4props as P
+        for pl in pls[: (40 if quick else 1500)]:
+            m = P.mutate_tree(rng, pl)
+            ntr = max(1, m.count(b"trak"))
+            for _ in range(3):
+                yield "lazy %s %s" % (m.hex() or "-", _rand_ops(rng, ntr)), "lazy-failing-calls"
+        tr = G.box(b"trak", G.box(b"mdia", G.box(b"minf", G.box(b"stbl", G.box(b"stco", b"\0\0\0\0\0\0\0\2\0\0\0\1")))))
+        yield "lazy %s 0.4" % tr.hex(), "lazy-failing-calls"
+
+
+GENERATORS = [gen_hdrparse, gen_hdrmk, gen_lazy]
 
 
 def gen(run):
@@ -236,7 +319,15 @@ def gen(run):
 
 
 # ---------------------------------------------------------------------- comparison / classification
+def _strip_state(out):
+    """observation of a `lazy` case without the serialised state (compared only when every call succeeded)"""
+    return " ".join(t for t in out.split() if not t.startswith(("put=", "elen=")))
+
+
 def same(line, impl, model):
+    if line.startswith("lazy ") and not impl.startswith("ok "):
+        # after a FAILED accessor call the model has no state (the error is all it returns): compare kind and step only
+        return _strip_state(impl) == _strip_state(model)
     return impl == model
 
 
@@ -245,6 +336,8 @@ def classify(line, impl):
     if not impl:
         return kind + ":missing"
     t = impl.split()
+    if kind == "lazy":
+        return "lazy:" + (" ".join(t[:3]) if t[0] != "ok" else "ok-%dcalls" % (0 if line.split()[2] == "-" else len(line.split()[2].split(","))))
     if t[0] == "ok":
         f = _fields(impl)
         return "%s:ok-%s%s" % (kind, f.get("s", "?").split(":")[0], "-uuid" if len(f.get("t", "")) == 32 else "")
@@ -263,6 +356,8 @@ def nontrivial(line, impl):
         n = int(t[2])
         short = 24 if len(t[1]) == 32 else 8
         return (not impl.startswith("ok")) or abs(n + short - U32) <= 48 or n >= U64 - 48
+    if t[0] == "lazy":
+        return t[2] != "-" and len(t[1]) >= 2 * 40        # at least one accessor call on a tree of 40+ bytes
     return True
 
 
@@ -344,7 +439,38 @@ def oracle_hdrmk(line, impl):
     return (not probs), "; ".join(probs) or "ok"
 
 
-ORACLES = {"hdrparse": oracle_hdrparse, "hdrmk": oracle_hdrmk}
+def oracle_lazy(line, impl):
+    """C16 (c) as worded: whatever was lazily parsed in between, serialising reproduces the original bytes and writes
+    exactly encoded_len bytes.  Independent of the model: the expected serialisation is the input payload itself."""
+    t = line.split()
+    payload = bytes.fromhex(t[1]) if t[1] != "-" else b""
+    if impl in ("panic", "missing", ""):
+        return False, "no result (%s)" % (impl or "missing")
+    if "step=parse" in impl:
+        return impl.startswith("err parse"), "MoovBox::parse failed: nothing to serialise"
+    f = {}
+    for tok in impl.split():
+        k, _, v = tok.partition("=")
+        if _:
+            f[k] = v
+    put = bytes.fromhex(f["put"]) if f.get("put", "-") != "-" else b""
+    probs = []
+    if int(f.get("elen", -1)) != len(put):
+        probs.append("encoded_len %s but %d bytes written" % (f.get("elen"), len(put)))
+    if put != payload:
+        what = "after %s" % ("successful accessor calls" if impl.startswith("ok ") else "a failed accessor call (%s)" % " ".join(impl.split()[:4]))
+        probs.append("serialisation (%d bytes) differs from the parsed bytes (%d bytes) %s" % (len(put), len(payload), what))
+    return (not probs), "; ".join(probs) or "ok"
+
+
+def known_class(line, impl):
+    """D9: an accessor that returned Err has already consumed part of the child's bytes; put_buf then writes a shortened box"""
+    if line.startswith("lazy ") and impl.startswith("err parse") and "step=parse" not in impl:
+        return "D9"
+    return None
+
+
+ORACLES = {"hdrparse": oracle_hdrparse, "hdrmk": oracle_hdrmk, "lazy": oracle_lazy}
 
 
 def oracle(run, pairs):
@@ -391,7 +517,22 @@ def search_hdr(run, disagreements):
         yield "hdrparse " + bytes(b).hex(), "search"
 
 
-SEARCHERS = [search_hdr]
+def search_lazy(run, disagreements):
+    rng = run.rng
+    for pl in _lazy_valid_payloads(rng, 1500):
+        ntr = pl.count(b"trak")
+        for _ in range(4):
+            yield "lazy %s %s" % (pl.hex(), _rand_ops(rng, ntr, 8)), "search"
+    for line, _, _ in disagreements[:50]:
+        t = line.split()
+        if t[0] == "lazy" and t[2] != "-":
+            ops = t[2].split(",")
+            for i in range(len(ops)):
+                yield "lazy %s %s" % (t[1], ",".join(ops[:i] + ops[i + 1:]) or "-"), "search"
+                yield "lazy %s %s" % (t[1], ",".join(ops[:i + 1])), "search"
+
+
+SEARCHERS = [search_hdr, search_lazy]
 
 
 def search(run, disagreements):
@@ -442,7 +583,21 @@ def coq_bool_hdr(line, model_out):
     return None
 
 
-COQ_BOOLS = {"hdrparse": coq_bool_hdr, "hdrmk": coq_bool_hdr}
+def coq_bool_lazy(line, model_out):
+    t = line.split()
+    b = bytes.fromhex(t[1]) if t[1] != "-" else b""
+    if len(b) > 300 or not model_out.startswith("ok "):
+        return None
+    ops = "[" + "; ".join("(%s, %s)" % tuple("%s%%nat" % x for x in o.split(".")) for o in (t[2].split(",") if t[2] != "-" else [])) + "]"
+    f = _fields(model_out)
+    put = bytes.fromhex(f["put"]) if f["put"] != "-" else b""
+    return ("match parse_moov %s with Ok kids => let r := run_ops %s 0%%nat kids in "
+            "match snd r with None => (if list_eq_dec Byte.byte_eq_dec (put_nodes (fst r)) %s then true else false) && "
+            "(nodes_encoded_len (fst r) =? %s) | Some _ => false end | _ => false end"
+            % (_coq_bytes(b), ops, _coq_bytes(put), f["elen"]))
+
+
+COQ_BOOLS = {"hdrparse": coq_bool_hdr, "hdrmk": coq_bool_hdr, "lazy": coq_bool_lazy}
 
 
 def coq_bool(line, model_out):
@@ -458,8 +613,9 @@ LEVEL_TEXT = ("Parts (a),(b): theorems C16_header_roundtrip (both directions, an
               "by Boxes::parse (model parse_boxes) and EVERY sequence of successful forcings (inductive relation `forces`: lazy parse of a "
               "container's children, of an stco/co64 table, at any depth, in any order) put gives back the parsed bytes and its length is "
               "encoded_len (C16_lazy_roundtrip, C16_encoded_len_agrees); the accessor chain the sanitizer runs is such a sequence "
-              "(C16_accessors_are_forcings). Part (c) is a theorem about the tree model; that model is compared with the implementation only "
-              "through the whole sanitizer (mp4 area), not accessor by accessor.")
+              "(C16_accessors_are_forcings), and so is every call sequence of the `lazy` correspondence batch (C16_lazy_ops_roundtrip), which drives "
+              "the real MoovBox / TrakBox / MdiaBox / MinfBox / StblBox accessors in generated orders and compares put_buf and encoded_len with "
+              "the extracted model. Histories containing a FAILED accessor call are outside the theorems (finding D9, see notes).")
 LEVEL_NOTE = ("Trusted: Coq kernel; the hand-written header model (compared with the implementation on every run); extraction and OCaml driver; "
               "the Rust harness; the Python reading of the ISO box-header layout used as oracle. No axioms. FourCC `uuid` as a box type "
               "(BoxType::UUID) is outside the quantifier: it serialises to bytes that read back as a uuid-typed box.")
